@@ -550,7 +550,17 @@ func init() {
 		// next to "$defs", a stale legacy "definitions" block with the same names must not change anything
 		pcs = append(pcs, staleDefinitionVariants(pcs, c.N(80, 800))...)
 		res := runCases(c, pcs)
-		fails := verdictOracle(c, res, "wrong JSON type", nil)
+		fails := verdictOracle(c, res, "wrong JSON type", func(r *core.PResult, i int) bool {
+			// C03 claims rejection of WRONGLY TYPED values.  A document of the random stream that the reference calls invalid
+			// although every value has the JSON type its position states (a required key missing inside the elements of a
+			// declared array type — listed finding K20 —, a bound) is not this property's business; model and real code must
+			// still agree on it (correspondence below)
+			if r.Case.Stream != "c03-random" || i >= len(r.ModelRuns) || r.ModelRuns[i].Spec != "invalid" || r.RunsJ[i].Kind != "ok" || !strings.HasPrefix(r.ModelRuns[i].J, "ok") {
+				return false
+			}
+			root, ok := r.Case.Schema.(sgen.M)
+			return ok && i < len(r.Case.Docs) && typesAllMatch(root, root, r.Case.Docs[i], 0)
+		})
 		fails += typedDefsAcrossFiles(c)
 		fails += renamedKeysAcrossScripts(c)
 		certCount(c, res, "type")
@@ -1532,6 +1542,95 @@ func typeIsNillable(root, s sgen.M) bool {
 	case nil:
 		_, hasProps := s["properties"]
 		return !hasProps // untyped: interface{}
+	}
+	return false
+}
+
+// typesAllMatch reports whether every value of doc DEFINITELY has the JSON type its position in schema states (walking
+// properties, items, additionalProperties and $refs into $defs / definitions).  Anything it does not understand
+// (composition, enums, type lists other than [T] / [T, null]) makes it answer false: it is only used to set documents
+// apart that are invalid for ANOTHER reason than a type.
+func typesAllMatch(root, schema sgen.M, doc any, depth int) bool {
+	if depth > 12 {
+		return false
+	}
+	if ref, ok := schema["$ref"].(string); ok {
+		for _, kw := range []string{"#/$defs/", "#/definitions/"} {
+			if strings.HasPrefix(ref, kw) {
+				if defs, ok := root[strings.Trim(kw, "#/")].(sgen.M); ok {
+					if t, ok := defs[strings.TrimPrefix(ref, kw)].(sgen.M); ok {
+						return typesAllMatch(root, t, doc, depth+1)
+					}
+				}
+			}
+		}
+		return false
+	}
+	for _, kw := range []string{"allOf", "anyOf", "oneOf", "not", "enum", "const"} {
+		if _, has := schema[kw]; has {
+			return false
+		}
+	}
+	T, nullable := "", false
+	switch t := schema["type"].(type) {
+	case nil:
+		return true
+	case string:
+		T = t
+	case []any:
+		for _, x := range t {
+			if x == "null" {
+				nullable = true
+			} else if T == "" {
+				T, _ = x.(string)
+			} else {
+				return false
+			}
+		}
+	default:
+		return false
+	}
+	if doc == nil {
+		return nullable || T == "null"
+	}
+	switch v := doc.(type) {
+	case bool:
+		return T == "boolean"
+	case string:
+		return T == "string"
+	case float64:
+		return T == "number" || (T == "integer" && v == float64(int64(v)))
+	case int:
+		return T == "number" || T == "integer"
+	case json.Number:
+		return T == "number" || (T == "integer" && !strings.ContainsAny(string(v), ".eE"))
+	case []any:
+		if T != "array" {
+			return false
+		}
+		it, _ := schema["items"].(sgen.M)
+		for _, x := range v {
+			if it != nil && !typesAllMatch(root, it, x, depth+1) {
+				return false
+			}
+		}
+		return true
+	case map[string]any:
+		if T != "object" {
+			return false
+		}
+		props, _ := schema["properties"].(sgen.M)
+		addl, _ := schema["additionalProperties"].(sgen.M)
+		for k, x := range v {
+			if ps, ok := props[k].(sgen.M); ok {
+				if !typesAllMatch(root, ps, x, depth+1) {
+					return false
+				}
+			} else if addl != nil && !typesAllMatch(root, addl, x, depth+1) {
+				return false
+			}
+		}
+		return true
 	}
 	return false
 }
